@@ -420,3 +420,73 @@ pub fn random_session(r: &mut StdRng, th: usize, steps: usize) -> Vec<Value> {
     }
     events
 }
+
+/// spec -> impl for the last-error protocol: a call history produced by TLC (thread, call kind,
+/// failure text, expected last-error state of every thread after the call) is executed on real
+/// threads in lock-step; after every call each thread reads its own last error.
+pub fn replay_ffiseq(v: &Value) -> (Value, Vec<String>) {
+    use std::sync::{Arc, Barrier};
+    let hist: Vec<Value> = v["hist"].as_array().cloned().unwrap_or_default();
+    let nth = hist.iter().map(|h| h["after"].as_array().map(|a| a.len()).unwrap_or(1)).max().unwrap_or(1);
+    let barrier = Arc::new(Barrier::new(nth));
+    let hist = Arc::new(hist);
+    let mut handles = Vec::new();
+    for t in 1..=nth {
+        let barrier = barrier.clone();
+        let hist = hist.clone();
+        handles.push(std::thread::spawn(move || {
+            let mut b = ffi::wirefilter_create_scheme_builder();
+            let name = "i";
+            ffi::wirefilter_add_type_field_to_scheme(&mut b, name.as_ptr().cast(), name.len(), ffi::CType::from(Type::Int));
+            let scheme = ffi::wirefilter_build_scheme(b);
+            let mut snaps = Vec::new();
+            for h in hist.iter() {
+                if h["th"].as_u64().unwrap() as usize == t {
+                    match h["call"].as_str().unwrap() {
+                        "ok" => {
+                            let src = "i == 1";
+                            let r = ffi::wirefilter_parse_filter(&scheme, src.as_ptr().cast(), src.len());
+                            assert!(r.ast.is_some());
+                        }
+                        "fail" => {
+                            let mut src: Vec<u8> = b"i == 1 ".to_vec();
+                            let x: Vec<u8> = serde_json::from_value(h["text"].clone()).unwrap();
+                            src.extend_from_slice(&x);
+                            let r = ffi::wirefilter_parse_filter(&scheme, src.as_ptr().cast(), src.len());
+                            assert!(r.ast.is_none());
+                        }
+                        _ => ffi::wirefilter_clear_last_error(),
+                    }
+                }
+                barrier.wait();
+                snaps.push(last_error());
+                barrier.wait();
+            }
+            snaps
+        }));
+    }
+    let logs: Vec<Vec<Value>> = handles.into_iter().map(|h| h.join().unwrap()).collect();
+    let mut diffs = Vec::new();
+    for (k, h) in hist.iter().enumerate() {
+        for t in 0..nth {
+            let exp = &h["after"][t];
+            let got = &logs[t][k];
+            if exp["null"] != got["null"] {
+                diffs.push(format!("after call {} ({} on thread {}): thread {} last error null={} expected null={}", k + 1, h["call"], h["th"], t + 1, got["null"], exp["null"]));
+                continue;
+            }
+            if got["null"] == false {
+                let gb: Vec<u8> = serde_json::from_value(got["b"].clone()).unwrap();
+                let eb: Vec<u8> = serde_json::from_value(exp["b"].clone()).unwrap();
+                if gb.is_empty() || gb.contains(&0) {
+                    diffs.push(format!("after call {}: thread {} last error empty or with interior NUL", k + 1, t + 1));
+                }
+                // the message echoes the offending input: the substituted text must occur in it
+                if !gb.windows(eb.len().max(1)).any(|w| w == &eb[..]) {
+                    diffs.push(format!("after call {}: thread {} last error {:?} does not contain the expected text {:?}", k + 1, t + 1, String::from_utf8_lossy(&gb), eb));
+                }
+            }
+        }
+    }
+    (json!(logs), diffs)
+}
